@@ -74,6 +74,15 @@ def bv_desc(bv: BV) -> str:
     return repr(bv)
 
 
+def _anc(mod: Any, n: ast.AST, stop: ast.AST) -> List[ast.AST]:
+    out = []
+    p = mod.parents.get(n)
+    while p is not None and p is not stop:
+        out.append(p)
+        p = mod.parents.get(p)
+    return out
+
+
 def run(ctx: Any, prog: Program) -> None:
     vtf = prog.module('vtf')
     py = prog.module('_py_vtf_readwrite')
@@ -291,12 +300,36 @@ def run(ctx: Any, prog: Program) -> None:
             seen_create = True
         if isinstance(st, ast.If) and any(isinstance(b, ast.Break) for b in st.body):
             creates_before_break = seen_create
+    # every key of the frame table owns its image: the value stored per key is a Frame built for that key.  `dict.fromkeys(keys, Frame(..))`
+    # evaluates the value once - all frames, depth slices and cube faces of a level would then be one object
+    n_sites = 0
+    for n in walk_no_nested(init):
+        if isinstance(n, ast.Assign) and any(isinstance(t, ast.Subscript) and dotted(t.value) == 'self._frames' for t in n.targets):
+            n_sites += 1
+            fresh = isinstance(n.value, ast.Call) and (dotted(n.value.func) or '').split('.')[-1] == 'Frame'
+            in_loop = any(isinstance(a, (ast.For, ast.While)) for a in _anc(vtf, n, init))
+            if fresh and in_loop:
+                ctx.check('C15.F2', True, vtf, n, 'a Frame is built for every key', func='VTF.__init__', text='one Frame object per frame-table key')
+            else:
+                ctx.shape('C15.F2', False, vtf, n, f'frame table entry stored as `{U(n.value)[:50]}`: not a Frame built at the store', func='VTF.__init__', text='one Frame object per frame-table key')
+        if isinstance(n, ast.Call) and (dotted(n.func) or '').endswith('fromkeys') and len(n.args) == 2 and any(dotted(x) == 'self._frames' for a in _anc(vtf, n, init) for x in ast.walk(a)):
+            n_sites += 1
+            shared = n.args[1]
+            mutable = not (isinstance(shared, ast.Constant))
+            ctx.check('C15.F2', not mutable, vtf, n, f'the frame table is filled with dict.fromkeys(..., {U(shared)[:40]}): the value is evaluated once, so every frame, depth slice and cube face of the level is the same '
+                      'Frame object - pixels stored into one image overwrite all the others, and save() writes the last image N times', func='VTF.__init__', text='one Frame object per frame-table key')
+        if isinstance(n, ast.DictComp) and any(dotted(x) == 'self._frames' for a in _anc(vtf, n, init) for x in ast.walk(a)):
+            n_sites += 1
+            fresh = isinstance(n.value, ast.Call) and (dotted(n.value.func) or '').split('.')[-1] == 'Frame'
+            ctx.shape('C15.F2', fresh, vtf, n, f'frame table comprehension stores `{U(n.value)[:50]}` per key', func='VTF.__init__', text='one Frame object per frame-table key')
+    ctx.shape('C15.F2', n_sites > 0, vtf, init, 'no store into self._frames found in the constructor', func='VTF.__init__', text='frame table creation site')
     asg = [n for n in walk_no_nested(init) if isinstance(n, ast.Assign) and dotted(n.targets[0]) == 'self.mipmap_count']
     if len(asg) != 1:
         raise AnalysisError('VTF.__init__: mipmap_count assignment not found')
     val = U(asg[0].value)
     # the loop creates levels 0..lv inclusive when the creation precedes the break -> count is lv + 1
     want = f'{lv} + 1' if creates_before_break else lv
+    ctx.shape('C15.F2', seen_create, vtf, cloop[0], 'the mipmap loop of the constructor stores into self._frames[..., level]', func='VTF.__init__', text='level creation inside the mipmap loop')
     ctx.check('C15.F2', val.replace(' ', '') == want.replace(' ', ''), vtf, asg[0], f'the constructor creates mipmap levels 0..{lv} (level created before the loop breaks) but declares mipmap_count = {val}: save() and read() iterate '
               f'range(mipmap_count), so the smallest level is never written, and a texture with a 1-pixel side (count 0) is saved without any image data', func='VTF.__init__', text='frame table = range(mipmap_count)')
     # save(): side sequence computed from the version written
@@ -697,6 +730,36 @@ def run(ctx: Any, prog: Program) -> None:
         bad = [a for a in re_assigns if not (isinstance(a.value, ast.Call) and dotted(a.value.func) == 'ResourceID')]
         ctx.check('C15.F1', not bad, vtf, bad[0] if bad else id_unpacks[0], (f'VTF.read rewrites the resource id it read (`{U(bad[0])[:60]}`) before using it as key: save() packs custom ids verbatim with `3s`, so an id that '
                   'legitimately ends in a NUL byte (b"AB\\0") comes back under a different key') if bad else 'id used as read / as ResourceID member', func='VTF.read', text='resource id stored as read')
+    # ---- F7: resources that save() writes from structured state are not also kept raw ------------------------------------------------------
+    # save() writes every entry of `self.resources` and, besides, entries it builds itself (`struct.pack(.., ResourceID.X.value, ..)`: the two
+    # image blocks and the particle sheet from `sheet_info`).  read() must therefore keep those ids out of the raw table - never store them, or
+    # take them out when decoding - otherwise the next save() writes the id twice (which read() itself rejects as a duplicate) and a changed
+    # sheet_info is shadowed by the stale raw copy.
+    ctx.rule('C15.F7', 'read() keeps out of the raw resource table every id that save() writes from structured state', floor=3)
+    sv7, rd7 = vm['save'], vm['read']
+    own_ids = sorted({x.value.attr for c in ast.walk(sv7) if isinstance(c, ast.Call) and (dotted(c.func) or '').endswith('pack') for x in c.args
+                      if isinstance(x, ast.Attribute) and x.attr == 'value' and isinstance(x.value, ast.Attribute) and dotted(x.value.value) == 'ResourceID'})
+    stores7 = [n for n in ast.walk(rd7) if isinstance(n, ast.Assign) and any(isinstance(t, ast.Subscript) and (dotted(t.value) or '').endswith('.resources') for t in n.targets)]
+    ctx.shape('C15.F7', len(stores7) == 1, vtf, rd7, f'read() stores into the raw resource table at {len(stores7)} sites (1 expected)', func='VTF.read', text='raw resource store')
+    for rid in own_ids:
+        kept_out = False
+        how = ''
+        for st7 in stores7:
+            # stored only in the else-branch of `res_id == ResourceID.X` tests
+            ch, par = st7, vtf.parents.get(st7)
+            while par is not None and par is not rd7:
+                if isinstance(par, ast.If) and ch in par.orelse and any(isinstance(c, ast.Compare) and any(dotted(x) == f'ResourceID.{rid}' for x in [c.left] + c.comparators) and isinstance(c.ops[0], (ast.Eq, ast.Is))
+                                                                       for c in ast.walk(par.test)):
+                    kept_out, how = True, 'never stored'
+                ch, par = par, vtf.parents.get(par)
+        for c in ast.walk(rd7):
+            if isinstance(c, ast.Call) and isinstance(c.func, ast.Attribute) and c.func.attr == 'pop' and (dotted(c.func.value) or '').endswith('.resources') and c.args and dotted(c.args[0]) == f'ResourceID.{rid}':
+                kept_out, how = True, 'popped when decoded'
+            if isinstance(c, ast.Delete) and any(isinstance(t, ast.Subscript) and (dotted(t.value) or '').endswith('.resources') and dotted(t.slice) == f'ResourceID.{rid}' for t in c.targets):
+                kept_out, how = True, 'deleted when decoded'
+        ctx.check('C15.F7', kept_out, vtf, stores7[0] if stores7 else rd7, f'save() writes a ResourceID.{rid} entry of its own, and read() leaves the raw ResourceID.{rid} entry in `resources`: after read -> save the id is written twice '
+                  '(read() rejects that file as "Duplicate resource ID"), and the raw copy shadows later changes of the decoded value', func='VTF.read', text=f'ResourceID.{rid} kept out of the raw table' + (f' ({how})' if how else ''))
+
     # ---- F6 --------------------------------------------------------------------------------------------------
     sm = vtf.methods('SheetSequence')
     fr_, mk = sm['from_resource'], sm['make_data']
@@ -838,6 +901,9 @@ def accepted_region(test: ast.AST, coords: Tuple[str, str] = ('x', 'y')) -> Dict
 
 
 MUTANTS: List[Dict[str, Any]] = [
+    {'id': 'read_keeps_raw_particle_sheet', 'file': 'vtf.py', 'find': "                sheet_data = vtf.resources.pop(ResourceID.PARTICLE_SHEET).data", 'replace': "                sheet_data = vtf.resources[ResourceID.PARTICLE_SHEET].data", 'expect': 'C15.F7'},
+    {'id': 'ok_read_deletes_raw_particle_sheet', 'file': 'vtf.py', 'find': "                sheet_data = vtf.resources.pop(ResourceID.PARTICLE_SHEET).data", 'replace': "                sheet_data = vtf.resources[ResourceID.PARTICLE_SHEET].data\n                del vtf.resources[ResourceID.PARTICLE_SHEET]", 'expect': None},
+    {'id': 'ctor_frames_fromkeys_shared', 'file': 'vtf.py', 'find': "            for frame in range(frames):\n                for cube_or_depth in depth_seq:\n                    self._frames[frame, cube_or_depth, mip_count] = Frame(width, height)\n", 'replace': "            self._frames.update(dict.fromkeys(itertools.product(range(frames), depth_seq, [mip_count]), Frame(width, height)))\n", 'expect': 'C15.F2'},
     {'id': 'resource_block_padded_after_offset', 'file': 'vtf.py', 'find': "                    deferred.set_data(('res', res_id), file.tell())\n", 'replace': "                    deferred.set_data(('res', res_id), file.tell())\n                    file.write(bytes(-file.tell() % 4))\n", 'expect': 'C15.F1'},
     {'id': 'ok_resource_block_padded_before_offset', 'file': 'vtf.py', 'find': "                    deferred.set_data(('res', res_id), file.tell())\n", 'replace': "                    file.write(bytes(-file.tell() % 4))\n                    deferred.set_data(('res', res_id), file.tell())\n", 'expect': None, 'refuse_ok': True},
     {'id': 'scale_down_row_stride_from_height', 'file': '_py_vtf_readwrite.py', 'find': "        vert_off, per_row = 4 * per_column * width, 2 * per_column * width\n", 'replace': "        vert_off, per_row = 4 * src_height, 2 * src_width\n", 'expect': 'C15.F5'},
